@@ -38,6 +38,10 @@ def configs(tier):
                 out.append({'rows': rows, 'n': n, 'method': method})
     # both analyses share one find_extrema_kwargs dictionary (the natural way to write the comparison)
     out.append({'rows': 1, 'n': 5, 'method': 'cycles', 'shared_options': True})
+    # a recording stored as unsigned / 16-bit integers: its trough-centred analysis mirrors the peak-centred analysis of
+    # the (mathematically) negated signal
+    for dt in ('uint8', 'int16'):
+        out.append({'rows': 1, 'n': 5, 'method': 'cycles', 'dtype': dt})
     # tables returned without the sample columns must mirror each other as well
     for method in ('cycles', 'amp'):
         out.append({'rows': 2, 'n': 6, 'method': method, 'return_samples': False})
@@ -90,7 +94,11 @@ def run(ctx, cfg):
     rows, n, method = cfg['rows'], cfg['n'], cfg['method']
     ff = ctx.mod('bycycle.features.features')
     sh = ctx.mod('bycycle.features.shape')
-    x = [ctx.real('x%d' % i) for i in range(n)]
+    if cfg.get('dtype'):
+        x, sig_t = ctx.int_signal(['x%d' % i for i in range(n)], cfg['dtype'])
+    else:
+        x = [ctx.real('x%d' % i) for i in range(n)]
+        sig_t = np.array(list(x), dtype=float)
     table = symbolic_table(ctx, rows, n)
     st = pipe.Stubs(ctx, 0, relate=('same',))
     seen = []
@@ -102,7 +110,7 @@ def run(ctx, cfg):
     sh.compute_cyclepoints = fake_cp
     fek = {'filter_kwargs': {'n_cycles': 3}, 'boundary': 0} if cfg.get('shared_options') else None
     try:
-        t_tab = ff.compute_features(np.array(list(x), dtype=float), 500.0, (8.0, 12.0), center_extrema='trough',
+        t_tab = ff.compute_features(sig_t, 500.0, (8.0, 12.0), center_extrema='trough',
                                     burst_method=method, threshold_kwargs=thresholds_for(method), find_extrema_kwargs=fek,
                                     return_samples=cfg.get('return_samples', True))
         p_tab = ff.compute_features(np.array([-v for v in x], dtype=float), 500.0, (8.0, 12.0), center_extrema='peak',
